@@ -3,6 +3,7 @@
   loop cannot fail after validation, and its effect on the abstract tree.
 -/
 import Rivia.Lemmas.CopyMove
+import Rivia.Lemmas.MovedEntry
 
 set_option linter.unusedSimpArgs false
 
@@ -187,9 +188,10 @@ theorem nodeAt_eq_of_lookup {σ σ' : State} {k : FsPath}
 
 /-! ### one relocation step -/
 
-/-- re-key one entry (and its data) from `w` to `dst` -/
+/-- re-key one entry (and its data) from `w` to `dst` (a link gets its `rel` recomputed against the
+    directory of `dst`, see `movedEntry`) -/
 def relocate (σ : State) (w dst : FsPath) (e : Entry) : State :=
-  { σ with entries := alInsert dst { e with path := dst } (alErase w σ.entries),
+  { σ with entries := alInsert dst (movedEntry e dst) (alErase w σ.entries),
            files := match alLookup w σ.files with
              | some b => alInsert dst b (alErase w σ.files)
              | none => alErase w σ.files }
@@ -200,7 +202,7 @@ def kidsOf (e : Entry) : List FsPath :=
 theorem relocate_entries {σ : State} (hn : (σ.entries.map (·.1)).Nodup) (w dst : FsPath) (e : Entry)
     (k : FsPath) :
     alLookup k (relocate σ w dst e).entries =
-      if dst = k then some { e with path := dst } else if w = k then none else alLookup k σ.entries := by
+      if dst = k then some (movedEntry e dst) else if w = k then none else alLookup k σ.entries := by
   unfold relocate
   simp only [alLookup_alInsert, alLookup_alErase hn]
 
@@ -260,19 +262,20 @@ theorem moveLoop_child {sk dk : FsPath} {ci : Bool} {pre : FsPath} {σ : State} 
     (f : Nat) (W : List FsPath)
     (hpre : if ci = true then sk ≠ [] ∧ pre = sk.dropLast else pre = sk)
     (hw : alLookup w σ.entries = some e) (hne : w ≠ [])
-    (hdst : dstOf dk w pre = dst)
+    (hdst : dstOf dk w pre = dst) (hok : MovedOk e dst)
     (hpar : alLookup w.dropLast (relocate σ w dst e).entries = none) :
     moveLoop sk dk ci (f + 1) (w :: W) σ =
       moveLoop sk dk ci f ((kidsOf e).reverse ++ W) (relocate σ w dst e) := by
-  rw [moveLoop]
-  have hpar' : alLookup w.dropLast (alInsert dst {e with path := dst} (alErase w σ.entries)) = none := hpar
+  rw [moveLoop_succ_cons]
+  have hpar' : alLookup w.dropLast (alInsert dst { e with path := dst, rel := movedRel e dst } (alErase w σ.entries)) = none := hpar
+  have hrel := movedRelM_eq_pure hok
   cases ci with
   | true =>
     simp only [if_true] at hpre
     obtain ⟨h1, h2⟩ := hpre
     subst h2
     simp only [if_true, dirOf_ne_nil h1, dirOf_ne_nil hne, mpure_bind, hdst, removeEntry_bind_apply,
-      hw, setEntry_bind_apply, removeFile_bind_apply]
+      hw, hrel, setEntry_bind_apply, removeFile_bind_apply]
     cases hb : alLookup w σ.files with
     | none =>
       simp only [getEntry_bind_apply, hpar']
@@ -284,7 +287,7 @@ theorem moveLoop_child {sk dk : FsPath} {ci : Bool} {pre : FsPath} {σ : State} 
     simp only [Bool.false_eq_true, if_false] at hpre
     subst hpre
     simp only [Bool.false_eq_true, if_false, dirOf_ne_nil hne, mpure_bind, hdst,
-      removeEntry_bind_apply, hw, setEntry_bind_apply, removeFile_bind_apply]
+      removeEntry_bind_apply, hw, hrel, setEntry_bind_apply, removeFile_bind_apply]
     cases hb : alLookup w σ.files with
     | none =>
       simp only [getEntry_bind_apply, hpar']
@@ -531,13 +534,14 @@ theorem moveLoop_children {sk dk D pre : FsPath} {ci : Bool}
       have hne : sk ++ r0 ≠ [] := by simp [hr0]
       have hdl : (sk ++ r0).dropLast = sk ++ r0.dropLast := List.dropLast_append_of_ne_nil hr0
       have hstep := moveLoop_child (sk := sk) (dk := dk) (ci := ci) f W hpre he hne (hdst r0 hwf0)
+        (movedOk_of_ne (by simp [hr0]))
         (by
           rw [hdl, relocate_entries hnE, if_neg (fun hh => hinc _ _ hh.symm), hpar0]
           simp)
       have hinv' := childInv_step hinc h rfl hr0 he
       have hcount : keyCount (fun k => sk.isPrefixOf k) (relocate σ (sk ++ r0) (D ++ r0) e).entries < f := by
         have h1 := keyCount_alInsert_false (p := fun k => sk.isPrefixOf k) (k := D ++ r0)
-          (isPrefixOf_false_of_inc hinc r0) { e with path := D ++ r0 } (alErase (sk ++ r0) σ.entries)
+          (isPrefixOf_false_of_inc hinc r0) (movedEntry e (D ++ r0)) (alErase (sk ++ r0) σ.entries)
         have h2 := keyCount_alErase_true (p := fun k => sk.isPrefixOf k) (k := sk ++ r0)
           (isPrefixOf_append sk r0) (l := σ.entries)
           (alLookup_isSome_iff_mem_keys.1 (by rw [he]; rfl))
@@ -635,7 +639,8 @@ theorem moveLoop_root {sk dk : FsPath} {ci : Bool} {pre : FsPath} {σ : State} {
     (hnpd : np.dir = true) :
     moveLoop sk dk ci (f + 1) (sk :: W) σ =
       moveLoop sk dk ci f ((kidsOf e).reverse ++ W) (rootStep σ sk dst e op np) := by
-  rw [moveLoop]
+  rw [moveLoop_succ_cons]
+  have hrel : movedRelM e dst = M.pure (movedRel e dst) := movedRelM_eq_pure (movedOk_of_ne hdne)
   obtain ⟨b, hb⟩ := addChild_dir hnpd (baseName dst)
   cases ci with
   | true =>
@@ -643,11 +648,11 @@ theorem moveLoop_root {sk dk : FsPath} {ci : Bool} {pre : FsPath} {σ : State} {
     obtain ⟨_, h2⟩ := hpre
     rw [h2] at hdst
     subst hdst
-    have hop' : alLookup sk.dropLast (alInsert _ {e with path := _} (alErase sk σ.entries)) = some op := hop
+    have hop' : alLookup sk.dropLast (alInsert _ { e with path := _, rel := movedRel e _ } (alErase sk σ.entries)) = some op := hop
     have hnp' : alLookup _ (alInsert sk.dropLast (rmChild op (baseName sk))
-        (alInsert _ {e with path := _} (alErase sk σ.entries))) = some np := hnp
+        (alInsert _ { e with path := _, rel := movedRel e _ } (alErase sk σ.entries))) = some np := hnp
     simp only [if_true, dirOf_ne_nil hne, dirOf_ne_nil hdne, mpure_bind, removeEntry_bind_apply,
-      hw, setEntry_bind_apply, removeFile_bind_apply]
+      hw, hrel, setEntry_bind_apply, removeFile_bind_apply]
     cases hfb : alLookup sk σ.files with
     | none =>
       simp only [getEntry_bind_apply, hop', removeChild_dir hopd, liftO_ok_bind, setEntry_bind_apply,
@@ -661,11 +666,11 @@ theorem moveLoop_root {sk dk : FsPath} {ci : Bool} {pre : FsPath} {σ : State} {
     simp only [Bool.false_eq_true, if_false] at hpre
     rw [hpre] at hdst
     subst hdst
-    have hop' : alLookup sk.dropLast (alInsert _ {e with path := _} (alErase sk σ.entries)) = some op := hop
+    have hop' : alLookup sk.dropLast (alInsert _ { e with path := _, rel := movedRel e _ } (alErase sk σ.entries)) = some op := hop
     have hnp' : alLookup _ (alInsert sk.dropLast (rmChild op (baseName sk))
-        (alInsert _ {e with path := _} (alErase sk σ.entries))) = some np := hnp
+        (alInsert _ { e with path := _, rel := movedRel e _ } (alErase sk σ.entries))) = some np := hnp
     simp only [Bool.false_eq_true, if_false, dirOf_ne_nil hne, dirOf_ne_nil hdne, mpure_bind,
-      removeEntry_bind_apply, hw, setEntry_bind_apply, removeFile_bind_apply]
+      removeEntry_bind_apply, hw, hrel, setEntry_bind_apply, removeFile_bind_apply]
     cases hfb : alLookup sk σ.files with
     | none =>
       simp only [getEntry_bind_apply, hop', removeChild_dir hopd, liftO_ok_bind, setEntry_bind_apply,
